@@ -27,6 +27,7 @@ import (
 	"strings"
 	"sync"
 	"sync/atomic"
+	"time"
 
 	"github.com/magisterquis/curlrevshell/lib/opshell"
 )
@@ -49,8 +50,15 @@ func main() {
 		}
 		return g
 	}
+	// opshell.New starts the silence timer with AfterFunc(0): its function runs once at start-up.
+	// Gating must not begin while that run is between two points (it would park holding Shell.wL).
+	startupDone := make(chan struct{})
+	var startupOnce sync.Once
 	opshell.VerifHook = func(point string) {
 		if !gating.Load() {
+			if point == "timer:done" {
+				startupOnce.Do(func() { close(startupDone) })
+			}
 			return
 		}
 		if strings.HasPrefix(point, "log:") {
@@ -98,6 +106,10 @@ func main() {
 		case strings.HasPrefix(l, "S "):
 			och <- opshell.CLine{Line: l[2:], Color: opshell.ColorGreen}
 		case l == "G":
+			select {
+			case <-startupDone:
+			case <-time.After(5 * time.Second):
+			}
 			gating.Store(true)
 			mu.Lock()
 			fmt.Fprintf(note, "AT gating\n")
